@@ -155,13 +155,16 @@ def c07 (steps : List StepObs) : Option String :=
     else none
 
 /-! ### C17: after all subscriptions ended and the handles were dropped, no token is alive -/
-def c17 (steps : List StepObs) : Option String :=
-  steps.findSome? fun st =>
+def c17 (steps : List StepObs) : Option String := Id.run do
+  let mut prevAllEnded := false
+  for st in steps do
     match st.toks with
     | some (u, o, i) =>
-      if u != 0 || o != 0 || i != 0 then some s!"live tokens after drop: user-callbacks={u} operator-closures={o} items={i}"
-      else none
-    | none => none
+      if prevAllEnded && (u != 0 || o != 0 || i != 0) then
+        return some s!"live tokens after drop: user-callbacks={u} operator-closures={o} items={i}"
+    | none => pure ()
+    prevAllEnded := st.status == "ok" && st.subs.all (· == false)
+  return none
 
 /-! ### C14: every subscriber of the same observable saw the same sequence -/
 def c14 (steps : List StepObs) : Option String :=
